@@ -140,6 +140,7 @@ def _start_watchdog():
                 if cur is None or cur.thread is None:
                     continue
                 S.last_progress = _rtime.monotonic() + 3600
+                S.hang_kind = 'watchdog'
                 S.hang_actor = cur.name
                 frame = sys._current_frames().get(cur.thread.ident)
                 S.hang_stack = ''.join(
@@ -183,6 +184,7 @@ def _enable_jump_budget(budget):
                 if S.jumps <= S.jump_budget + 30 * n * n:
                     return
                 S.jumps = -10**12
+                S.hang_kind = 'jumps'
                 S.hang_actor = me.name
                 S.hang_stack = ''.join(traceback.format_stack()[-8:-1])
                 S.hang_frames = [(os.path.basename(f.filename), f.name)
@@ -267,6 +269,7 @@ def execute(spec):
     S.hang_actor = None
     S.hang_stack = None
     S.hang_frames = None
+    S.hang_kind = None
     S.jump_budget = spec.get('jump_budget') or 0
     rec = record.Recorder(spec)
     mainproc = _sched.Proc(S.new_vpid(), 'main')
@@ -386,6 +389,7 @@ def execute(spec):
     res.hang_actor = S.hang_actor
     res.hang_stack = S.hang_stack
     res.hang_frames = S.hang_frames
+    res.hang_kind = S.hang_kind
 
     # -- what is on disk now (before interpreter-exit emulation) -------------------
     res.final_out = rec.read_out()
